@@ -449,6 +449,18 @@ class CallMixin:
                         b2[name] = BoolV(val)
                         nw.append((q2, b2))
                 worlds = nw
+        # a maybe-None reference for a parameter whose contract distinguishes None from a node
+        for name, alts in c.params.items():
+            if "none" in alts and ("node" in alts) and name in bound and bound[name].tag == "ref":
+                nw = []
+                for q, b in worlds:
+                    qn, qs = q.fork(), q.fork()
+                    qn.assume(b[name].z == L.NONE)
+                    qs.assume(b[name].z != L.NONE)
+                    bn = dict(b)
+                    bn[name] = NoneV
+                    nw += [(qn, bn), (qs, b)]
+                worlds = nw
         outs = []
         for q, b in worlds:
             outs += self.apply_contract(c, qual, b, q, R, node)
